@@ -187,6 +187,42 @@ theorem run_safe (n x0 x1 y0 y1 : Int) (fuel : Nat) (hx0 : 0 ≤ x0) (hx : x0 < 
 end RL
 
 
+/-! ## `render_point` (lib/floor1.c) interpolates between its end values -/
+namespace RP
+open render_point
+
+/-- `render_point` (lib/floor1.c) interpolates between its two end values: for `x0 ≤ x ≤ x1`, `x0 < x1` the predicted value lies between the
+    (flag-masked) `y0` and `y1` -/
+theorem run_between (x0 x1 y0 y1 x : Int) (fuel : Nat) (hx : x0 < x1) (h0 : x0 ≤ x) (h1 : x ≤ x1) :
+    ∃ r s', run x0 x1 y0 y1 x fuel = .ret r s' ∧
+      ((land y0 32767 ≤ r ∧ r ≤ land y1 32767) ∨ (land y1 32767 ≤ r ∧ r ≤ land y0 32767)) := by
+  generalize hm0 : land y0 32767 = m0
+  generalize hm1 : land y1 32767 = m1
+  have hadx : 0 < x1 - x0 := by omega
+  have hc : 0 ≤ cabs (m1 - m0) := by unfold cabs; split <;> omega
+  have hk0 : 0 ≤ x - x0 := by omega
+  have herr : 0 ≤ cabs (m1 - m0) * (x - x0) := Int.mul_nonneg hc hk0
+  have hle : cabs (m1 - m0) * (x - x0) ≤ cabs (m1 - m0) * (x1 - x0) := Int.mul_le_mul_of_nonneg_left (by omega) hc
+  have hoff0 : 0 ≤ Int.tdiv (cabs (m1 - m0) * (x - x0)) (x1 - x0) := by
+    rw [Int.tdiv_eq_ediv_of_nonneg herr]; exact Int.ediv_nonneg herr (by omega)
+  have hoff1 : Int.tdiv (cabs (m1 - m0) * (x - x0)) (x1 - x0) ≤ cabs (m1 - m0) := by
+    rw [Int.tdiv_eq_ediv_of_nonneg herr]
+    have : cabs (m1 - m0) * (x - x0) / (x1 - x0) < cabs (m1 - m0) + 1 := by
+      rw [Int.ediv_lt_iff_lt_mul hadx, Int.add_mul]; omega
+    omega
+  simp only [run, body, init, seq, act, ifS, retS, hm0, hm1]
+  by_cases hd : m1 - m0 < 0
+  · simp only [hd, decide_true, if_true]
+    refine ⟨_, _, rfl, Or.inr ?_⟩
+    have : cabs (m1 - m0) = m0 - m1 := by unfold cabs; simp [hd]; omega
+    omega
+  · simp only [hd, decide_false, Bool.false_eq_true, if_false, skip]
+    refine ⟨_, _, rfl, Or.inl ?_⟩
+    have : cabs (m1 - m0) = m1 - m0 := by unfold cabs; simp [hd]
+    omega
+
+end RP
+
 /-! ## `ov_ilog` (lib/sharedbook.c) is the hand model's `ilogNat` -/
 namespace IL
 open ov_ilog
